@@ -123,13 +123,24 @@ var c06Laws = []c06law{
 		func(x, y float64) []LValue {
 			return []LValue{sep, LFalse, n_(x), LTrue, s_("running"), sep, LFalse, sep, LTrue, n_(y), sep, s_("suspended"), sep, LTrue, n_(5), sep, s_("dead"), LNil}
 		}},
+	// yield in tail position: in the body itself (several values, create/resume), through a helper that tail-calls
+	// it, and in a function the body tail-calls
+	{`local co = coroutine.create(function(...) return coroutine.yield(...) end)
+	  emit(coroutine.resume(co, x, y)); emit(coroutine.resume(co, y, x, 3)); emit(coroutine.status(co)); emit(coroutine.resume(co))
+	  local function ask() return coroutine.yield('q') end
+	  local w = coroutine.wrap(function() local a, b = ask(); return a, b end); emit(w()); emit(w(x, y))
+	  local w2 = coroutine.wrap(function() local function inner() return coroutine.yield(x) end; return inner() end); emit(w2()); emit(w2(y))`,
+		func(x, y float64) []LValue {
+			return []LValue{sep, LTrue, n_(x), n_(y), sep, LTrue, n_(y), n_(x), n_(3), sep, s_("dead"), sep, LFalse, s_("cannot resume dead coroutine"),
+				sep, s_("q"), sep, n_(x), n_(y), sep, n_(x), sep, n_(y)}
+		}},
 }
 
 var sep LValue = LString("\x00sep")
 
 // C06.laws — coroutine value transfer, status and error laws with symbolic payloads.
 //
-//verif:harness prop=C06 tier=quick bounds="17 law templates (<= 3 coroutines, <= 6 resumes each): transfer in both directions with 0..3 values, status incl. normal/running, errors and faults inside coroutines, wrap, generators, nested resumes, dead/running resume, tail-called yield, errors crossing wrap inside resume, wrap failing inside another coroutine; payloads 2 symbolic float64"
+//verif:harness prop=C06 tier=quick bounds="18 law templates (<= 3 coroutines, <= 6 resumes each): transfer in both directions with 0..3 values, status incl. normal/running, errors and faults inside coroutines, wrap, generators, nested resumes, dead/running resume, tail-called yield, errors crossing wrap inside resume, wrap failing inside another coroutine; payloads 2 symbolic float64"
 func H_C06_laws() {
 	k := VChoice(len(c06Laws))
 	law := c06Laws[k]
